@@ -307,6 +307,27 @@ class SizeEval:
                 if es.is_const():
                     return atom(("len", pa, es.const))
                 return atom(("sum", pa, es.freeze(), es.show()))
+            if nm == "sum" and not mc["args"]:
+                # v.iter().map(|x| f(x)).sum::<usize>(): the same sum as fold(0, |acc, x| acc + f(x))
+                inner = H.strip(mc["recv"])
+                if H.is_mcall(inner) and H.mcall(inner)["name"] == "map" and len(H.mcall(inner)["args"]) == 1:
+                    im = H.mcall(inner)
+                    pa = self.path_of(im["recv"], env)
+                    clo = H.strip(im["args"][0])
+                    if pa is not None and H.tag(clo) == "closure" and len(clo[2]) == 1:
+                        env2 = dict(env)
+                        x = clo[2][0]
+                        while H.tag(x) in ("pref", "pderef"):
+                            x = x[1]
+                        if H.tag(x) == "bind":
+                            env2[x[1]] = pa + ("[]",)
+                        es = SE()
+                        es.add(self.ev(clo[3], env2))
+                        es.normalise()
+                        if es.is_const():
+                            return atom(("len", pa, es.const))
+                        return atom(("sum", pa, es.freeze(), es.show()))
+                raise Unk("sum shape")
             raise Unk(f"method {nm}")
         if t == "match":
             sp = self.path_of(n[1], env)
